@@ -32,7 +32,8 @@ bytes are deleted. -/
 theorem parseFloatSyntax_strip_gen (c : Cfg) (o : POpts) (hG : GenStrip c o) (hresI : Rescan c .integer)
     (hresF : Rescan c .fraction) (hstab : PeekStable c .integer) (s : List Nat) (hb256 : ∀ x ∈ s, x < 256)
     (fv : Bool) (n : Number) (cnt : Nat) (h : parseFloatSyntax c o false s fv = .ok (.number n cnt)) :
-    ∃ n', parseFloatSyntax c o false (nonSep c s) fv = .ok (.number n' (nonSep c s).length) ∧ NumRel c n n' := by
+    ∃ n', parseFloatSyntax c o false (nonSep c s) fv = .ok (.number n' (nonSep c s).length) ∧ NumRel c n n' ∧
+      SlicesOK c n := by
   unfold parseFloatSyntax at h ⊢
   simp only [] at h ⊢
   unfold parseMantissaSign at h ⊢
@@ -116,7 +117,7 @@ theorem parseFloatSyntax_strip_gen (c : Cfg) (o : POpts) (hG : GenStrip c o) (hr
               simp only at h2 h3 h4
               subst h2
               have hr00 : StripRel c s b0 b1' := h3.skip .integer v hv1 hp
-              obtain ⟨n', hn', hrel⟩ := number_strip_gen c o hG hresI hresF s hb256 b0 b1' hr00 hv0
+              obtain ⟨n', hn', hrel, hsok⟩ := number_strip_gen c o hG hresI hresF s hb256 b0 b1' hr00 hv0
                 (by rw [hsp.2.1]; exact hic1.1) (by rw [hsp.2.2.1]; exact hic1.2)
                 (Or.inr (by
                   intro x' hx' hcs
@@ -159,7 +160,7 @@ theorem parseFloatSyntax_strip_gen (c : Cfg) (o : POpts) (hG : GenStrip c o) (hr
                 peek_nosep c .integer b1' hn1' (hG.rel.reach _), pure, Except.pure, hnonempty]
               unfold parseCompleteNumber
               simp only [hn', bind, Except.bind, Bytes.bufferLength, h3.2.1, if_true, pure, Except.pure]
-              exact ⟨n', rfl, hrel⟩
+              exact ⟨n', rfl, hrel, hsok⟩
             · -- the left run stands on a separator and a sign follows: it finds no mantissa digit
               exfalso
               simp only at h1
